@@ -35,6 +35,11 @@ def field_count_gate(repo, chk, oid):
         return None
     row = st.targets[0].id
     header = fn.params[1]
+    pa = [ast.unparse(a) for a in pcall.args]
+    lv = loop.target.id if isinstance(loop.target, ast.Name) else None
+    ok_roles = len(pa) >= 5 and pa[0] == lv and pa[1] in fn.params and pa[3] in fn.params and 'map' in pa[3] and pa[4] == header
+    chk.expect(ok_roles, oid + 'p', 'R6', fn.site(pcall), ast.unparse(pcall)[:120], 'the parser receives (line, delimiter, args, namespace map, header) in their roles',
+               'generic_line_parser must be called with the current line first, then the delimiter, args, the namespace map and the header')
     # the parsed row must reach the gate and the buffer exactly as the parser returned it
     from ..match import MUTATORS
     touch = []
